@@ -300,14 +300,15 @@ Fixpoint run_l4 (ids : list Z) (ls : list listener) (l : list (Z * Z * Z))
 Definition counts_of (nl : nat) (deliveries : list (Z * list lresult)) : list Z :=
   concat (map (fun i => map (fun e => count_kind i (Z.of_nat e) deliveries) (seq 0 NK)) (seq 0 nl)).
 
+Definition l4_trace (ids : list Z) (nl : nat) (mask : Z) (reqs : list (Z * Z * Z)) : list Z :=
+  let ls := map (listener_of mask) (seq 0 nl) in
+  let '(out, acc) := run_l4 ids ls reqs (map (fun _ => []) ids) in
+  out ++ concat (map (counts_of nl) acc).
+
 Definition run_listeners_stack (sc : list Z) : list Z :=
   let n := Z.to_nat (zn sc 1) in
-  let ids := firstn n (skipn 2 sc) in
-  let nl := Nat.min 4 (Z.to_nat (zn sc (2 + n))) in
-  let mask := zn sc (3 + n) in
-  let ls := map (listener_of mask) (seq 0 nl) in
-  let '(out, acc) := run_l4 ids ls (chunk3 (skipn (5 + n) sc)) (map (fun _ => []) ids) in
-  out ++ concat (map (counts_of nl) acc).
+  l4_trace (firstn n (skipn 2 sc)) (Nat.min 4 (Z.to_nat (zn sc (2 + n)))) (zn sc (3 + n))
+           (chunk3 (skipn (5 + n) sc)).
 
 (* mode 2 (one layer in a TRIGGERING configuration; the driver compares the run with panicking
    listeners with a reference run of the same binary): [2; layer; nlisteners; panic mask; nreq; ...]
